@@ -784,7 +784,7 @@ func gen(w *kit.Out, r *kit.Rand, tier string) {
 	}
 	nClean, nFull, nMal, length := 60, 60, 10, 30
 	if tier == "thorough" {
-		nClean, nFull, nMal, length = 300, 300, 30, 45
+		nClean, nFull, nMal, length = 450, 450, 30, 45
 	}
 	rc := r.Fork()
 	for i := 0; i < nClean; i++ {
